@@ -659,6 +659,12 @@ func genSkeleton() string {
 	b.WriteString("def commitPaths : List (String × List (Nat × String)) := [\n  " + strings.Join(genCommitPaths(), ",\n  ") + "\n]\n")
 	b.WriteString("\n/-- every function outside fstxn/commit.go that commits without waiting (calls `CommitUnstable`) -/\n")
 	b.WriteString("def unstableCommitters : List String := [" + strings.Join(genUnstableCommitters(), ", ") + "]\n")
+	b.WriteString("\n/-- every function of package shrinker with the kinds of its statements in source order (pre-order; `go`, `if` … `fi`,\n    `for` … `rof`, `return`, `call:<callee>`, `set:<callee>`, …) -/\n")
+	b.WriteString("def shrinkerSpawn : List (String × List String) := [\n  " + strings.Join(genShrinkerSpawn(), ",\n  ") + "\n]\n")
+	b.WriteString("\n/-- every call of `Resize` in package nfs and what becomes of its result (`starts-shrinker`: assigned to a variable\n    that guards a later `StartShrinker` call in the same block) -/\n")
+	b.WriteString("def resizeUses : List (String × String) := [\n  " + strings.Join(genResizeUses(), ",\n  ") + "\n]\n")
+	b.WriteString("\n/-- every assignment to a field of a struct declared in the module: (pkg.Func, pkg.Type, field, `local`: the struct is a\n    variable built in this function | `shared`: anything else) -/\n")
+	b.WriteString("def fieldWrites : List (String × String × String × String) := [\n  " + strings.Join(genFieldWrites(), ",\n  ") + "\n]\n")
 	b.WriteString("\nend GoNfsd.Gen.Skeleton\n")
 	return b.String()
 }
